@@ -48,7 +48,9 @@ def heap_sort(key):
         return z3.ArraySort(IntS, IntS)
     if k == "joined":
         return z3.ArraySort(IntS, StrS)
-    if k == "g":           # ghost scalar: ('g', name, kind)
+    if k == "g":           # ghost scalar / array: ('g', name, kind)
+        if key[2] == "arr":
+            return z3.ArraySort(IntS, IntS)
         return kind_sort(key[2])
     raise KeyError(key)
 
@@ -58,21 +60,38 @@ class Heap:
     symbols) the first time they are touched; `initial` remembers those symbols so that `old(..)` and
     frame conditions can refer to the entry heap."""
 
-    def __init__(self, initial=None, comps=None, tag="h0"):
+    def __init__(self, initial=None, comps=None, tag="h0", epoch=0):
         self.initial = initial if initial is not None else {}
         self.comps = comps if comps is not None else {}
         self.tag = tag
+        self.epoch = epoch
 
     def copy(self):
-        h = Heap(self.initial, dict(self.comps), self.tag)
+        h = Heap(self.initial, dict(self.comps), self.tag, self.epoch)
         return h
 
     def get(self, key):
         if key not in self.comps:
-            if key not in self.initial:
-                self.initial[key] = z3.Const("H0_" + "_".join(str(x) for x in key).replace(":", "."), heap_sort(key))
-            self.comps[key] = self.initial[key]
+            if self.epoch and key[0] not in ("cls", "g"):
+                # an opaque call happened before this component was first touched: its value is unknown
+                self.get_initial(key)
+                self.comps[key] = fresh(f"E{self.epoch}_" + "_".join(str(x) for x in key).replace(":", "."), heap_sort(key))
+            else:
+                self.comps[key] = self.get_initial(key)
         return self.comps[key]
+
+    def get_initial(self, key):
+        if key not in self.initial:
+            self.initial[key] = z3.Const("H0_" + "_".join(str(x) for x in key).replace(":", "."), heap_sort(key))
+        return self.initial[key]
+
+    def havoc_all(self, keep=()):
+        """an opaque call may have written anything: forget every component (ghost keys in `keep` survive)"""
+        for key in list(self.comps):
+            if key[0] == "cls" or key in keep:
+                continue
+            del self.comps[key]
+        self.epoch += 1
 
     def set(self, key, term):
         self.get(key)  # make sure the initial symbol exists
@@ -84,7 +103,7 @@ class Heap:
 
     def snapshot(self):
         """A frozen copy usable as `old` heap."""
-        return Heap(self.initial, dict(self.comps), self.tag)
+        return Heap(self.initial, dict(self.comps), self.tag, self.epoch)
 
     def changed_keys(self, other):
         keys = set(self.comps) | set(other.comps)
@@ -133,6 +152,11 @@ class State:
 
     def assume(self, cond):
         if z3.is_true(cond):
+            return
+        if z3.is_and(cond):
+            # conjuncts are kept apart so that quantifier-free ones survive the filters of the feasibility checks
+            for ch in cond.children():
+                self.assume(ch)
             return
         self.pc.append(cond)
 
